@@ -75,8 +75,28 @@ def linFragB (tok : α → String) (lm : LinModel α) : Bool :=
         (isZero lm.offset || (if floatLt lm.offset zero then numTextOk (tok (Arith.abs lm.offset)) else numTextOk (tok lm.offset)))))
   && domOkB tok lm.domain
 
+/-- The token rules of grammar.pest that decide how a rendered term `2.5x` / `3x_1` is cut — as the lexer model
+(`Syntax/Tok.lean`, digit and word branches of `lexAux`) and the token twins implement them.  Compared with
+`Gen.ruleShapes`, which tools/extract.py regenerates from /repo's grammar.pest before every check: a changed
+rule (e.g. an exponent part in `float`, which makes `2.5e1` ONE number instead of `2.5` times the variable
+`e1`) is reported by the driver on every rendered model of the fragment instead of being silently modelled
+the old way. -/
+def tokenRulesModelled : List (String × String × String) :=
+  [("number", "_", "float | integer"),
+   ("integer", "@", "'0'..'9'+"),
+   ("float", "@", "'0'..'9'+ ~ \".\" ~ ('0'..'9')+"),
+   ("implicit_mul", "", "(number | parenthesis){2,} ~ variable? | (number | parenthesis) ~ variable"),
+   ("simple_variable", "@", "\"$\"? ~ \"_\"* ~ LETTER ~ (LETTER | NUMBER)*")]
+
+/-- the first token rule whose extracted shape is not the modelled one -/
+def grammarDrift : Option String :=
+  (tokenRulesModelled.find? fun r => !(Gen.ruleShapes.contains r)).map (·.1)
+
 /-- `none`: fine (or outside the fragment / the lexer model declines); `some what`: the link is broken -/
 def linkCheck (text : String) (toks : List Tok) (pm : PModel) : Option String :=
+  match grammarDrift with
+  | some rule => some ("grammar-rule-changed-" ++ rule)
+  | none =>
   match lex (text.toList ++ ['\n']) with
   | .unsupported => none
   | .ok ts =>
